@@ -167,6 +167,7 @@ void AllocSim::reset_run()
 	next_id = 1;
 	live.clear();
 	free_hook = nullptr;
+	alloc_hook = nullptr;
 	cap = (size_t)64 << 20;
 }
 void AllocSim::begin_op()
@@ -235,6 +236,8 @@ static void live_add(void *p, size_t size)
 	r.size = size;
 	r.nframes = fp_walk(r.frames, 8);
 	g_alloc.live[p] = r;
+	if (g_alloc.alloc_hook)
+		g_alloc.alloc_hook(p);
 }
 static bool live_del(void *p)
 {
